@@ -92,6 +92,16 @@ Theorem ignore_matching_empty_path_ignores_everything : forall ignore t l,
 Proof. exact load_project_root_ignored. Qed.
 Print Assumptions ignore_matching_empty_path_ignores_everything.
 
+(** Only the paths of directories count: two lists that match the same ones among the root-relative paths of the
+    directories on the way to the packages of the tree load the same packages, whatever else they match -- ".",
+    "/", "./d", "d/", an absolute path or a file name is not the path of a directory on the way to anything. *)
+Theorem ignore_depends_only_on_directory_paths : forall ig1 ig2 t l1 l2,
+  load_project ig1 t = Some l1 -> load_project ig2 t = Some l2 ->
+  (forall p way d, In (p, way) (packages [] [] t) -> In d way -> matches_some ig1 d = matches_some ig2 d) ->
+  forall p, In p l1 <-> In p l2.
+Proof. exact load_project_only_directory_paths. Qed.
+Print Assumptions ignore_depends_only_on_directory_paths.
+
 Theorem load_project_fails_iff : forall ignore t,
   load_project ignore t = None <-> existsb (fun g => negb (well_escaped g)) ignore = true.
 Proof. exact load_project_fails. Qed.
@@ -139,4 +149,15 @@ Example walks :
   /\ load_project [[97; 47; 42]; [42]] t = Some []
   /\ glob_builtin [[97; 63; 120]] [] t = Some [[97; 47; 120]]
   /\ glob_builtin [[42; 120]] [] t = Some [[120]].
+Proof. vm_compute. auto. Qed.
+
+(** A tree with the packages "", src and .g:  ignore=[".*"] drops .g only (the pattern matches the one-character
+    string "." too, which is the path of nothing);  ignore=["?"] and ignore=[".", "/", "./*"] drop nothing. *)
+Example dot_patterns :
+  let bd := build_dawn in
+  let src := [115; 114; 99] in
+  let t := Dir [bd] [(src, Dir [bd] []); ([46; 103], Dir [bd] [])] in
+  load_project [[46; 42]] t = Some [[]; src]
+  /\ load_project [[63]] t = Some [[]; src; [46; 103]]
+  /\ load_project [[46]; [47]; [46; 47; 42]] t = Some [[]; src; [46; 103]].
 Proof. vm_compute. auto. Qed.
